@@ -1037,6 +1037,8 @@ def plan(prop, tier, seed, known):
             jobs.append(conccrash_job("conccrash%d" % i, seed * 100 + 95 + i, 2 + i % 3, 3 if q else 6, 6 if q else 8, av, 60 if q else 150, 2 if q else 4))
         jobs.append({"name": "Wal_MC", "kind": "mc", "module": "Wal.tla", "cfg": "Wal_MC.cfg"})
         jobs.append({"name": "Wal_MC_raw(negative control)", "kind": "mc", "module": "Wal.tla", "cfg": "Wal_MC_raw.cfg", "expect_violation": True})
+        # one request = one transaction: the durable prefix holds every request entirely or not at all (control: a request logged in pieces)
+        jobs += design_jobs("Flush", ["Flush"], [], [("Flush_split", "Whole")], q)
     elif prop == "C07":
         n = 6 if q else 60
         for i in range(n):
@@ -1050,7 +1052,7 @@ def plan(prop, tier, seed, known):
         jobs += commitwin_jobs(q, ["C07", "C01"])
         # what "stable" waits for: its own position, never the shared field that a refused transaction resets (script 4 and the
         # commit windows with a refused request exercise the same on the real code)
-        jobs += design_jobs("Flush", ["Flush"], [], [("Flush_shared", "Promise"), ("Flush_late", "Promise")], q)
+        jobs += design_jobs("Flush", ["Flush"], [], [("Flush_shared", "Promise"), ("Flush_late", "Promise"), ("Flush_split", "Whole")], q)
         jobs.append(seq_job("unstseq", seed, "data,mix", 4 if q else 16, 250, av))
         jobs.append(probe_job(prop, av))
     elif prop == "C03":
